@@ -11,6 +11,7 @@ from reactivex.disposable import (
     SingleAssignmentDisposable,
 )
 from reactivex.internal import add_ref, curry_flip, noop
+from reactivex.scheduler import ImmediateScheduler
 from reactivex.subject import Subject
 
 log = logging.getLogger("Rx")
@@ -44,7 +45,10 @@ def window_toggle_(
         ops.group_join(
             source,
             closing_mapper,
-            lambda _: empty(),
+            # A source element only belongs to the windows that are open when
+            # it arrives: its duration must end at once, also when a scheduler
+            # was passed to subscribe().
+            lambda _: empty(ImmediateScheduler.singleton()),
         ),
         ops.map(mapper),
     )
